@@ -169,7 +169,6 @@ def known_class(x, text):
 def run(ctx):
     ctx.build_go(prebuild=True)
     T = ctx.tables()
-    ctx.regen({'AaTables.lean': tolean.aa_tables(T)})
     ctx.driver_path = ctx.driver()
     broken = ctx.audit(THEOREMS, {'AaVerif.Props.Full.C12Full': ['C12Full.C12_capability_read_full', 'C12Full.C12_network_read_full', 'C12Full.C12_signal_read_full']})
     rng = ctx.rng
